@@ -2778,6 +2778,7 @@ M("a10-u16-literal-bound-too-wide", "C03", "fire A10", "src/scan.rs",
   """                                "u16" if n <= u32::MAX as u64 => {""", "u16 literals up to u32::MAX pass the scanner")
 REVERT("revert-array-literal-elements-compared", "C05", "fire S17", "259fc4b", "pre-fix tree: a re-typed array literal takes its first element's type")
 REVERT("revert-range-signed-elements", "C05", "fire S18", "98fcf78", "pre-fix tree: the Range arm re-types only for unsigned element types")
+REVERT("revert-const-expr-array-parties", "C05", "fire S19", "fd784a1", "pre-fix tree: a single [T; const { .. }] parameter is one party")
 REVERT("revert-no-input-bits", "C05", "fire S16", "9c49737", "pre-fix tree: circuits without any input bit are built")
 M("s16-quiet-any-form", "C05", "quiet", "src/compile.rs",
   """        if input_gates.iter().all(|bits| *bits == 0) {""",
